@@ -1,7 +1,7 @@
 CONSTANTS
   T = {t1, t2, t3}
   Intervals = {1, 2}
-  MaxNow = 5
+  MaxNow = 4
   MaxAdv = 3
   MaxCbOps = 1
   Variant = "intended"
